@@ -33,6 +33,9 @@ type irRule struct {
 	Line                   int
 	Patterns               []string
 	Where                  irFilter
+	Doc                    string
+	Location, Do           string
+	Comments               []string
 }
 
 const irDumpTest = `package rulesdata
@@ -40,9 +43,16 @@ const irDumpTest = `package rulesdata
 import (
 	"encoding/json"
 	"fmt"
+	"go/ast"
+	"go/importer"
+	"go/parser"
+	"go/token"
+	"go/types"
+	"os"
 	"testing"
 
 	"github.com/quasilyte/go-ruleguard/ruleguard/ir"
+	"github.com/quasilyte/go-ruleguard/ruleguard/irconv"
 )
 
 type gsxFilter struct {
@@ -60,29 +70,70 @@ func gsxConv(f ir.FilterExpr) gsxFilter {
 	return out
 }
 
-func TestGSXDumpIR(t *testing.T) {
-	type rule struct {
-		Group, Report, Suggest string
-		Line                   int
-		Patterns               []string
-		Where                  gsxFilter
-	}
-	var rules []rule
-	for _, g := range PrecompiledRules.RuleGroups {
+type gsxRule struct {
+	Group, Report, Suggest string
+	Line                   int
+	Patterns               []string
+	Where                  gsxFilter
+	Doc                    string
+	Location, Do           string
+	Comments               []string
+}
+
+func gsxRules(f *ir.File) []gsxRule {
+	var rules []gsxRule
+	for _, g := range f.RuleGroups {
 		for _, r := range g.Rules {
-			x := rule{Group: g.Name, Report: r.ReportTemplate, Suggest: r.SuggestTemplate, Line: r.Line, Where: gsxConv(r.WhereExpr)}
+			x := gsxRule{Group: g.Name, Report: r.ReportTemplate, Suggest: r.SuggestTemplate, Line: r.Line, Where: gsxConv(r.WhereExpr),
+				Doc: fmt.Sprintf("%q %q %q %q %q", g.DocTags, g.DocSummary, g.DocBefore, g.DocAfter, g.DocNote), Location: r.LocationVar, Do: r.DoFuncName}
 			for _, p := range r.SyntaxPatterns {
 				x.Patterns = append(x.Patterns, p.Value)
+			}
+			for _, p := range r.CommentPatterns {
+				x.Comments = append(x.Comments, p.Value)
 			}
 			rules = append(rules, x)
 		}
 	}
-	js, _ := json.Marshal(rules)
+	return rules
+}
+
+func TestGSXDumpIR(t *testing.T) {
+	js, _ := json.Marshal(gsxRules(PrecompiledRules))
+	fmt.Printf("GSX-IR\t%s\n", js)
+}
+
+// TestGSXCompileIR compiles ../rules/rules.go the way rules/precompile.go does.
+func TestGSXCompileIR(t *testing.T) {
+	fset := token.NewFileSet()
+	filename := "../rules/rules.go"
+	data, err := os.ReadFile(filename)
+	if err != nil {
+		t.Fatal(err)
+	}
+	f, err := parser.ParseFile(fset, filename, data, parser.ParseComments)
+	if err != nil {
+		t.Fatal(err)
+	}
+	info := &types.Info{Types: map[ast.Expr]types.TypeAndValue{}, Uses: map[*ast.Ident]types.Object{}, Defs: map[*ast.Ident]types.Object{}}
+	pkg, err := (&types.Config{Importer: importer.For("source", nil)}).Check("gorules", fset, []*ast.File{f}, info)
+	if err != nil {
+		t.Fatal(err)
+	}
+	irfile, err := irconv.ConvertFile(&irconv.Context{Pkg: pkg, Types: info, Fset: fset, Src: data}, f)
+	if err != nil {
+		t.Fatal(err)
+	}
+	js, _ := json.Marshal(gsxRules(irfile))
 	fmt.Printf("GSX-IR\t%s\n", js)
 }
 `
 
-func dumpRuleIR() ([]irRule, error) {
+func dumpRuleIR() ([]irRule, error) { return dumpRuleIRFrom("TestGSXDumpIR") }
+
+// dumpRuleIRFrom runs one of the dump tests: TestGSXDumpIR (the shipped data) or
+// TestGSXCompileIR (the rule source compiled now).
+func dumpRuleIRFrom(test string) ([]irRule, error) {
 	tmp, err := os.MkdirTemp("", "gsx-irdump-")
 	if err != nil {
 		return nil, err
@@ -91,7 +142,7 @@ func dumpRuleIR() ([]irRule, error) {
 	tf := filepath.Join(tmp, "zz_verif_irdump_test.go")
 	os.WriteFile(tf, []byte(irDumpTest), 0o644)
 	out, err := runGoTest(tmp, map[string]string{filepath.Join(repoDir, "checkers", "rulesdata", "zz_verif_irdump_test.go"): tf},
-		[]string{"-v", "-vet=off", "-count=1", "-run", "^TestGSXDumpIR$", "./checkers/rulesdata"}, nil)
+		[]string{"-v", "-vet=off", "-count=1", "-run", "^" + test + "$", "./checkers/rulesdata"}, nil)
 	if err != nil {
 		return nil, err
 	}
